@@ -42,8 +42,8 @@ FillOk(e) ==
 Init == tr \in 1..Len(Traces) /\ l = 1
 Next ==
   /\ l <= Len(Ev)
-  /\ IF Ev[l].e = "op" THEN OpOk(Ev[l]) ELSE FillOk(Ev[l])
   /\ l' = l + 1 /\ UNCHANGED tr
+  /\ IF Ev[l].e = "op" THEN OpOk(Ev[l]) ELSE FillOk(Ev[l])
 Spec == Init /\ [][Next]_vars
 Done == l > Len(Ev)
 Report ==
